@@ -175,6 +175,15 @@ def check_case(case) -> Result:
     got = pt.add_mods(seq, mods2)
     if got != s:
         r.fail('add_mods(*pop_mods(s)) == s', 'C20/pop-add-roundtrip', s=s, got=got)
+    # the annotation's own pair: pop_mods() takes the modification dictionary out, add_mod_dict() puts it back
+    a3 = a.copy()
+    d3 = a3.pop_mods()
+    if a3.serialize() != p['seq'] or a3.has_mods():
+        r.fail('stripping removes every modification and nothing else', 'C20/annotation-pop_mods-leaves-mods', s=s, got=a3.serialize())
+    a3.add_mod_dict(d3)
+    if not (a3 == a):
+        r.fail('adding the modification dictionary to the stripped peptide reproduces it', 'C20/annotation-pop-add-roundtrip', s=s,
+               got=a3.serialize())
     if pt.strip_mods(s) != p['seq']:
         r.fail('stripping removes every modification and nothing else', 'C20/strip_mods', s=s, got=pt.strip_mods(s))
     st_a = a.strip()
